@@ -2405,6 +2405,10 @@ func (s *ShowSeriesCardinalityStatement) RequiredPrivileges() (ExecutionPrivileg
 	if !s.Exact {
 		return ExecutionPrivileges{{Admin: false, Name: s.Database, Privilege: ReadPrivilege}}, nil
 	}
+	if len(s.Sources) == 0 {
+		// Without a FROM clause the statement reads from its (default) database.
+		return ExecutionPrivileges{{Admin: false, Name: s.Database, Privilege: ReadPrivilege}}, nil
+	}
 	return s.Sources.RequiredPrivileges()
 }
 
@@ -2608,6 +2612,10 @@ func (s *ShowMeasurementCardinalityStatement) String() string {
 // RequiredPrivileges returns the privilege required to execute a ShowMeasurementCardinalityStatement.
 func (s *ShowMeasurementCardinalityStatement) RequiredPrivileges() (ExecutionPrivileges, error) {
 	if !s.Exact {
+		return ExecutionPrivileges{{Admin: false, Name: s.Database, Privilege: ReadPrivilege}}, nil
+	}
+	if len(s.Sources) == 0 {
+		// Without a FROM clause the statement reads from its (default) database.
 		return ExecutionPrivileges{{Admin: false, Name: s.Database, Privilege: ReadPrivilege}}, nil
 	}
 	return s.Sources.RequiredPrivileges()
@@ -3035,6 +3043,10 @@ func (s *ShowTagKeyCardinalityStatement) String() string {
 
 // RequiredPrivileges returns the privilege required to execute a ShowTagKeyCardinalityStatement.
 func (s *ShowTagKeyCardinalityStatement) RequiredPrivileges() (ExecutionPrivileges, error) {
+	if len(s.Sources) == 0 {
+		// Without a FROM clause the statement reads from its (default) database.
+		return ExecutionPrivileges{{Admin: false, Name: s.Database, Privilege: ReadPrivilege}}, nil
+	}
 	return s.Sources.RequiredPrivileges()
 }
 
@@ -3190,6 +3202,10 @@ func (s *ShowTagValuesCardinalityStatement) String() string {
 
 // RequiredPrivileges returns the privilege required to execute a ShowTagValuesCardinalityStatement.
 func (s *ShowTagValuesCardinalityStatement) RequiredPrivileges() (ExecutionPrivileges, error) {
+	if len(s.Sources) == 0 {
+		// Without a FROM clause the statement reads from its (default) database.
+		return ExecutionPrivileges{{Admin: false, Name: s.Database, Privilege: ReadPrivilege}}, nil
+	}
 	return s.Sources.RequiredPrivileges()
 }
 
@@ -3259,6 +3275,10 @@ func (s *ShowFieldKeyCardinalityStatement) String() string {
 
 // RequiredPrivileges returns the privilege required to execute a ShowFieldKeyCardinalityStatement.
 func (s *ShowFieldKeyCardinalityStatement) RequiredPrivileges() (ExecutionPrivileges, error) {
+	if len(s.Sources) == 0 {
+		// Without a FROM clause the statement reads from its (default) database.
+		return ExecutionPrivileges{{Admin: false, Name: s.Database, Privilege: ReadPrivilege}}, nil
+	}
 	return s.Sources.RequiredPrivileges()
 }
 
